@@ -101,10 +101,15 @@ PROPS = {
             "(a,b,c,d,port) round-trips through Id and yields a 48-bit id; two ids map to the same address exactly when their low "
             "48 bits agree; (b) the timer bookkeeping of the UDP runtime, the real on_command(), with Instant::now() stubbed by a symbolic "
             "non-decreasing clock: after SetTimer(t,d) [SetTimer(t,d')] the deadline of t is at least (time of the LATEST arming) + d', re-arming "
-            "creates no second entry, CancelTimer(t) leaves t not due for >400 years, cancelling an unset timer arms nothing, other timers untouched."
+            "creates no second entry, CancelTimer(t) leaves t not due for >400 years, cancelling an unset timer arms nothing, other timers untouched; "
+            "(c) by engine M (symbolic execution of the compiler's MIR of the per-actor thread closure of spawn(), every callee arbitrary, loops havocked, opaque values with recorded provenance, z3 for path feasibility): "
+            "the socket is bound, then on_start runs exactly once before the receive loop and before any other handler and is never called again; a round calls at most one handler; on_msg is called only after recv_from and "
+            "deserialize on that round, with the actor's own id, the Ok payload of deserialize and Id::from of the IPv4 source address recv_from returned; on_timeout/on_random run only when the earliest deadline has passed "
+            "(no receive on that round) and after that interrupt was removed from the pending set; every handler is handed the same state cell; the round's commands go through on_command."
         ),
+        "technique": "solver-based bounded model checking of the compiled code (Kani/CBMC harnesses over kani::any() inputs) for the Id<->address conversions and the timer bookkeeping; symbolic execution of the compiler's MIR into z3 (mirsym) for the runtime loop's handler calls",
         "bounds": {"ids": "all u64 (bijection asserted on ids < 2^48)", "addresses": "all 2^48 IPv4 socket addresses", "timers": "2 timers, durations 0..65535 s (degenerate ranges), <=2 armings + 1 cancel, clock steps < 10^6 s"},
-        "outside": ["the event loop of spawn(): sockets, recv timeouts, which interrupt fires when, on_start ordering, datagram routing, state threading - inside a closure over real UDP sockets, not symbolically executable", "timer ranges with start < end (jitter via rand::thread_rng)", "ChooseRandom in the runtime"],
+        "outside": ["in the event loop of spawn(): what the sockets deliver (the OS), which pending interrupt is the earliest (min_by_key over the map), that set_read_timeout bounds the wait, the bytes handed to deserialize (in_buf[..count]), serialization and send_to in on_command's Send arm", "timer ranges with start < end (jitter via rand::thread_rng)", "ChooseRandom in the runtime"],
         "assumptions": COMMON_ASSUME + ["std::time::Instant::now stubbed by a symbolic non-decreasing clock (kani::stub)", "on_command/Interrupt/mod spawn made pub(crate) in the scratch copy (visibility only)", "HashMap of pending interrupts is the Vec-backed model (scratch copy of spawn.rs)", "once_cell/getrandom models"],
     },
     "C18": {
